@@ -41,6 +41,14 @@ class PartialDispatcher(Dispatcher):
         signature = tuple(map(typing_wrap, signature))
         super().add(signature, func)
 
+    def reorder(self, *args, **kwargs):
+        od = super().reorder(*args, **kwargs)
+        if self.default is not None:
+            # The default matches everything: try it last rather than leaving
+            # ties with catch-all patterns like (object,) to hash().
+            od.sort(key=lambda sig: self.funcs[sig] is self.default)
+        return od
+
     def partial_call(self, *args):
         """
         Likde :meth:`__call__` but avoids calling ``func()``.
